@@ -2,8 +2,10 @@
 package c11
 
 import (
+	"fmt"
 	"os"
 	"testing"
+	"time"
 
 	"pgregory.net/rapid"
 
@@ -44,7 +46,7 @@ func genHistory(concurrent bool) func(t *rapid.T) mx.History {
 			c := mx.Cycle{Pull: -1, Clear: rapid.Bool().Draw(t, "clear")}
 			cnt := genCount(t, h.Chunk)
 			for k := 0; k < cnt; k++ {
-				c.Keys = append(c.Keys, rapid.IntRange(0, 12).Draw(t, "key")) // small range: duplicate keys
+				c.Keys = append(c.Keys, rapid.IntRange(-6, 6).Draw(t, "key")) // small range around zero: duplicate keys, zero after negatives
 			}
 			if rapid.IntRange(0, 2).Draw(t, "partial") == 0 && cnt > 0 {
 				c.Pull = rapid.IntRange(0, cnt).Draw(t, "pull")
@@ -61,9 +63,23 @@ func check(h mx.History) *vlib.Failure {
 		return vlib.Failf("setup", "%v", err)
 	}
 	defer s.Close()
-	_, e := mx.Run(h, s, false)
-	if e != nil {
-		return &vlib.Failure{Kind: e.Kind, Msg: e.Msg}
+	done := make(chan *mx.Err, 1)
+	go func() {
+		defer func() {
+			if r := recover(); r != nil {
+				done <- &mx.Err{Kind: "panic", Msg: fmt.Sprint(r)}
+			}
+		}()
+		_, e := mx.Run(h, s, false)
+		done <- e
+	}()
+	select {
+	case e := <-done:
+		if e != nil {
+			return &vlib.Failure{Kind: e.Kind, Msg: e.Msg}
+		}
+	case <-time.After(30 * time.Second):
+		return vlib.Failf("deadlock", "the history did not finish within 30 s (a call blocked)")
 	}
 	return nil
 }
